@@ -31,7 +31,7 @@ ASSUME = ["requests carry the AVPs their command requires (Destination-Realm is 
           "the selection callback must be invoked with ready, configured peers only and its choice honoured",
           "senders run on harness-owned simulated threads; evaluation at quiescent points"]
 
-STATES = ["none", "awaiting", "ready", "ready", "ready", "waiting-dwa", "disconnecting", "closed"]
+STATES = ["none", "awaiting", "ready", "ready", "ready", "waiting-dwa", "disconnecting", "closed", "disconnecting-late-dwa"]
 REALMS = ["example", "r2.example"]
 
 
@@ -39,7 +39,7 @@ def world_cfg(case):
     peers = []
     for i, p in enumerate(case["peers"]):
         peers.append({"name": f"peer{i + 1}.example", "realm": p["realm"], "ip": [f"10.1.1.{i + 1}"],
-                      "default": p["default"], "timers": {"idle": 2} if p["state"] == "waiting-dwa" else {}})
+                      "default": p["default"], "timers": {"idle": 2} if p["state"] in ("waiting-dwa", "disconnecting-late-dwa") else {}})
     apps = []
     for a in case["apps"]:
         apps.append({"app_id": a["id"], "auth": True, "peers": a["peers"], "realms": a.get("realms"),
@@ -71,7 +71,7 @@ def evaluate(case) -> Result:
                 continue
             c = w.handshake_in(host, auth=app_ids, ip=ip, hbh=0x100 + i)
             conn_of[i] = c
-        if any(p["state"] == "waiting-dwa" for p in case["peers"]):
+        if any(p["state"] in ("waiting-dwa", "disconnecting-late-dwa") for p in case["peers"]):
             w.advance(5)
         for i, p in enumerate(case["peers"]):
             c = conn_of.get(i)
@@ -79,14 +79,22 @@ def evaluate(case) -> Result:
                 continue
             if p["state"] == "disconnecting":
                 w.feed_msg(c, {"k": "DPR", "host": f"peer{i + 1}.example", "hbh": 0x180 + i, "e2e": 0x180 + i})
+            elif p["state"] == "disconnecting-late-dwa":
+                # the node's DWR is outstanding when the DPR arrives; its DWA comes afterwards
+                dwrs = [f for f in c.refresh() if f.is_request and f.code == 280]
+                w.feed_msg(c, {"k": "DPR", "host": f"peer{i + 1}.example", "hbh": 0x180 + i, "e2e": 0x180 + i})
+                ids = {"hbh": dwrs[-1].h["hbh"], "e2e": dwrs[-1].h["e2e"]} if dwrs else {"hbh": 0x190 + i, "e2e": 0x190 + i}
+                w.feed_msg(c, dict(ids, k="DWA", host=f"peer{i + 1}.example"))
             elif p["state"] == "closed":
                 w.peer_close(c)
 
         def ready_peers():
+            # the harness's own account of readiness (not the node's state field): the exchange succeeded, no DPR
+            # was received, the connection is still open
             out = set()
-            for i, peer in enumerate(w.peers):
-                pc = peer.connection
-                if pc is not None and pc.state in pm.PEER_READY_STATES:
+            for i, p in enumerate(case["peers"]):
+                c = conn_of.get(i)
+                if p["state"] in ("ready", "waiting-dwa") and c is not None and not c.node_closed and not c.peer_closed:
                     out.add(i)
             return out
 
@@ -95,7 +103,7 @@ def evaluate(case) -> Result:
             pc = w.peers[i].connection
             st_ = None if pc is None else pc.state
             want = {"ready": pm.PEER_READY, "waiting-dwa": pm.PEER_READY_WAITING_DWA,
-                    "disconnecting": pm.PEER_DISCONNECTING}.get(p["state"])
+                    "disconnecting": pm.PEER_DISCONNECTING, "disconnecting-late-dwa": pm.PEER_DISCONNECTING}.get(p["state"])
             if want is not None and st_ != want:
                 res.classes.append("setup-state-missed")
 
@@ -412,7 +420,7 @@ def run(tier, scale=1.0):
     for d in hyp.pool_run(shard_main, (tier, scale)):
         rec.merge(d)
     required = {"schedule-exploration": 1, "senders:3": 1, "npeers:4": 1, "napps:3": 1, "select:first": 1, "select:None": 1, "state:waiting-dwa": 1,
-                "state:disconnecting": 1, "state:awaiting": 1, "state:closed": 1, "sends:4": 1}
+                "state:disconnecting": 1, "state:disconnecting-late-dwa": 1, "state:awaiting": 1, "state:closed": 1, "sends:4": 1}
     return finish(rec, tier=tier, level="exploration", rule=RULE, assumptions=ASSUME, t0=t0,
                   required_classes=required)
 
